@@ -410,7 +410,8 @@ def c01 (v : StepView) : Verdict :=
                       m.upper == upperDir v.post n && m.work == workDir v.post n
           | none => false) &&
         l.file.mounts.all fun m => (topAt v.post.mnts (pathJoin [buildDir v.post n, m.mount])).isSome
-    if !complete then viol "mount succeeded but a chain layer lacks a configured mount" else
+    -- (chroot mounts only when the layer itself is not reported mounted; then it is a mount)
+    if !complete && (c == "mount" || !sys.isEmpty) then viol "mount succeeded but a chain layer lacks a configured mount" else
     fine [(if sys.isEmpty then "c01:nothing-to-do" else (if repeated then "c01:repeated" else "c01:mounted"))]
 
 /-! ### C08 -/
